@@ -438,8 +438,11 @@ def r17_8(ctx, counts) -> RuleResult:
                     isinstance(b, ast.Constant) and b.value is None for b in (x.body, x.orelse)):
                 return True
             if isinstance(x, ast.If) and any(
-                    isinstance(r, ast.Return) and isinstance(r.value, ast.Constant)
-                    and r.value.value is None for b in x.body for r in ast.walk(b)):
+                    isinstance(c_, ast.Constant) and c_.value is None
+                    for b in x.body + x.orelse for st_ in ast.walk(b)
+                    for c_ in ([st_.value] if isinstance(st_, (ast.Return, ast.Assign))
+                               and st_.value is not None else
+                               (st_.args if isinstance(st_, ast.Call) else []))):
                 return True
         return False
     helper_ok = {n_: yields_none_for_empty(g.node) for n_, g in helpers.items()}
